@@ -165,6 +165,13 @@ theorem float_to_float_nearest_even (src dst : Fmt) (hp : 1 ≤ dst.mant) (he : 
   simp
 
 open RsslVerif.Model.ConstEvalFloat in
+/-- the link to property C10: on every non-negative finite double the model's `(float)d` is `Spec.Dec2Bin.narrow32`,
+    the narrowing C10 proves correct for `f`-suffixed literals — constants and literals are rounded by one definition -/
+theorem float_narrowing_is_c10_narrow32 (bits : Nat) (h : bits < RsslVerif.Spec.Dec2Bin.binary64.infBits) :
+    convert f64 f32 bits = RsslVerif.Spec.Dec2Bin.narrow32 bits :=
+  RsslVerif.Lemmas.ConstEvalFloat.convert_f64_f32_eq_narrow32 bits h
+
+open RsslVerif.Model.ConstEvalFloat in
 /-- **`(double)f` for a finite float constant loses nothing**: the binary64 pattern encodes a significand/exponent
     pair of exactly the same value (both sides counted in units of `2^-1074`), with the same sign. -/
 theorem float_widen_exact (bits : Nat) (n : Bool) (m : Nat) (e : Int) (hd : decode f32 bits = .fin n m e) :
